@@ -35,8 +35,9 @@ type sample struct {
 
 // kase is one running case: the cluster, the single-node reference and the model.
 type kase struct {
-	h    *harness.H
-	c    int
+	h     *harness.H
+	layer string
+	c     int
 	spec caseSpec
 
 	cluster *mock.Cluster
@@ -50,13 +51,13 @@ type kase struct {
 }
 
 func newCase(h *harness.H, c int, r *prng.R) *kase {
-	return &kase{h: h, c: c, spec: genCase(r, c), committed: map[channel.Key][]sample{}, polluted: map[channel.Key]bool{}}
+	return &kase{h: h, layer: "diff", c: c, spec: genCase(r, c), committed: map[channel.Key][]sample{}, polluted: map[channel.Key]bool{}}
 }
 
 func noLimit(xtypes.Uint20) error { return nil }
 
 func (k *kase) violate(sig, what string) {
-	k.h.Violation("diff", k.c, sig, what, k.spec)
+	k.h.Violation(k.layer, k.c, sig, what, k.spec)
 }
 
 // guard runs f under the call watchdog. It returns false (and marks the case aborted) if f
@@ -667,8 +668,12 @@ func (k *kase) checkEngines(ctx context.Context, ss sessionSpec, involved []node
 				sig := fmt.Sprintf("c07:%s:leaseholder-engine-%s:%s", when, cl, where)
 				if cl == "replayed-frame" {
 					sig = "c07:leaseholder-engine-holds-replayed-frame:" + where
-				} else if ss.Sabotage != nil && strings.HasPrefix(cl, "missing") {
+				} else if strings.HasPrefix(cl, "missing") && when == "after-acked-commit" {
+					// with or without sabotage: Commit returned nil and this leaseholder does
+					// not hold the committed rows
 					sig = "c07:commit-acked-but-leaseholder-did-not-commit:" + where
+				} else if strings.HasPrefix(cl, "missing") && when == "after-acked-autocommit-write" {
+					sig = "c07:autocommit-write-acked-but-leaseholder-did-not-commit:" + where
 				}
 				k.violate(sig, fmt.Sprintf("%s: channel %d on its leaseholder node %d (%s of the writer, gateway %d, sync=%v auto_commit=%v sabotaged=%v): %s",
 					when, key, l, where, ss.Gateway, ss.Sync, ss.AutoCommit, ss.Sabotage != nil, describe(got[key], want)))
